@@ -230,7 +230,7 @@ def columnfile_case(run, seed, idx, columnfile, parameters):
         shutil.rmtree(d, ignore_errors=True)
 
 
-def parameters_case(run, seed, idx, parameters):
+def parameters_case(run, seed, idx, parameters, indexing=None):
     r = rng(seed, "C18", "par", idx)
     npar = int(r.integers(1, 25))
     pars = {}
@@ -294,6 +294,24 @@ def parameters_case(run, seed, idx, parameters):
                 if type(g) is not want_type or not same or (isinstance(v, float) and np.signbit(v) != np.signbit(g)):
                     run.violation("parameters:%s-changed" % c, "%s value %r of %s read back as %r (%s)"
                                   % (type(v).__name__, v, nm, g, type(g).__name__), dict(desc, name=nm))
+        # the same file through an object that owns a parameter set: indexer.loadpars(file) then indexer.savepars(file2),
+        # the way index_unknown / the gui carry a full .par file along.  What a plain load gives must come back.
+        if indexing is not None and idx % 3 == 0:
+            import contextlib, io
+            fn3 = os.path.join(d, "p3.par")
+            with contextlib.redirect_stdout(io.StringIO()), contextlib.redirect_stderr(io.StringIO()):
+                ix = indexing.indexer()
+                ix.loadpars(fn)
+                ix.savepars(fn3)
+            q3 = parameters.parameters()
+            q3.loadparameters(fn3)
+            run.count("parameter_files_through_indexer")
+            for nm, g in got.items():
+                g3 = q3.parameters.get(nm, "<missing>")
+                if repr(g3) != repr(g):
+                    run.violation("parameters:through-indexer", "parameter %s is %r after a plain load and %r after "
+                                  "indexer.loadpars / savepars of the same file" % (nm, g, g3), dict(desc, name=nm))
+                    break
         # second cycle is a fixed point
         fn2 = os.path.join(d, "p2.par")
         q.saveparameters(fn2)
@@ -452,7 +470,7 @@ def check(run, replay=None):
         if k == "columnfile":
             columnfile_case(run, replay["seed"], cs["index"], columnfile, parameters)
         elif k == "parameters":
-            parameters_case(run, replay["seed"], cs["index"], parameters)
+            parameters_case(run, replay["seed"], cs["index"], parameters, indexing)
         elif k == "grains":
             grains_case(run, replay["seed"], cs["index"], grain, indexing)
         elif k == "hdf-history":
@@ -471,7 +489,7 @@ def check(run, replay=None):
     for i in range(n["cf"]):
         columnfile_case(run, run.seed, i, columnfile, parameters)
     for i in range(n["par"]):
-        parameters_case(run, run.seed, i, parameters)
+        parameters_case(run, run.seed, i, parameters, indexing)
     for i in range(n["gr"]):
         grains_case(run, run.seed, i, grain, indexing)
     for i in range(n["sp"]):
@@ -493,5 +511,6 @@ def check(run, replay=None):
     run.require_counter("text_roundtrips", 50)
     run.require_counter("hdf_roundtrips", 50)
     run.require_counter("parameter_values_checked", 200)
+    run.require_counter("parameter_files_through_indexer", 20)
     run.require_counter("parameter_ints_beyond_2^53", 5)
     run.require_counter("grain_text_roundtrips", 30)
